@@ -9,7 +9,9 @@
         before the frame is produced) and 0 at the end of every pass;
       * after [repeat] passes (never, for a negative repeat) the iterator stops; a failed
         frame closes it; close / deletion leave the seek position alone;
-      * loop_no: None before the first frame, then the number of passes left.
+      * loop_no: None before the first frame, then the number of passes left;
+      * the PIL image the iterator works on is closed when the iterator ends (exhaustion,
+        failure, close, deletion) and not before.
 
     Shares only the vocabulary (operations, outcomes, [res]) with model/ImgIter.v. *)
 From Coq Require Import List ZArith Bool Arith.
@@ -72,9 +74,16 @@ Section Spec.
             ssize := z; sloop := sloop s |}, OSized)
     end.
 
-  Fixpoint strace (s : sp) (ops : list (op Size)) : list (outcome Str * Z * option Z) :=
+  (** the iterator holds an open PIL image exactly while it is not closed / exhausted *)
+  Fixpoint strace (s : sp) (ops : list (op Size)) : list (outcome Str * Z * option Z * bool) :=
     match ops with
     | [] => []
-    | o :: r => let (s1, x) := sstep s o in (x, spos s1, sloop s1) :: strace s1 r
+    | o :: r => let (s1, x) := sstep s o in (x, spos s1, sloop s1, negb (closed s1)) :: strace s1 r
+    end.
+
+  Fixpoint srun (s : sp) (ops : list (op Size)) : sp :=
+    match ops with
+    | [] => s
+    | o :: r => srun (fst (sstep s o)) r
     end.
 End Spec.
